@@ -19,7 +19,7 @@ From SC Require Import Base.Prelude Gen.Units Traits.Str Traits.StrProofs
   Traits.ModeTrait Traits.ModeTraitProofs Traits.EnterLeave Traits.EnterLeaveProofs Traits.Meter Traits.MeterProofs
   Traits.Publication Traits.PublicationProofs Traits.Options Traits.OptionsProofs Traits.Store Traits.StoreProofs
   Traits.VendingStore Traits.VendingStoreProofs Traits.FanMask Traits.FanMaskProofs.
-From SC Require Import Msg.Msg Msg.Schema Msg.Path Masks.Get Traits.MeterMask Traits.MeterMaskProofs Traits.StockMask Traits.StockMaskProofs.
+From SC Require Import Msg.Msg Msg.Schema Msg.Path Masks.Get Traits.MeterMask Traits.MeterMaskProofs Traits.StockMask Traits.StockMaskProofs Traits.PubStore Traits.PubStoreProofs.
 From Coq Require Import QArith.
 Local Open Scope string_scope.
 Local Open Scope Z_scope.
@@ -561,3 +561,70 @@ Example C20_nonvacuous_stock_path :
           (mkPS (Some (9, 25)) (Some (4, 1)) (Some (1, 1)) true)
   = Some (0, mkPS (Some (3, 25)) (Some (4, 100)) None false).
 Proof. exact stock_nested_sample. Qed.
+
+(* ================= publication: the collection over ALL ids (store level), generated ids ================= *)
+
+(* every operation moves the slot of the id it addresses by the one-id step and touches no other id *)
+Theorem C20_publication_store_slots : forall hash s o, store_wf s = true ->
+  fst (pubs_step hash s o) = fst (pub_step hash (po_now o) (sfind (addressed o) s) (pub_norm_op (po_op o) (po_gen o))) /\
+  forall k, sfind k (snd (pubs_step hash s o)) =
+            if String.eqb (addressed o) k
+            then snd (pub_step hash (po_now o) (sfind (addressed o) s) (pub_norm_op (po_op o) (po_gen o)))
+            else sfind k s.
+Proof. exact pubs_step_slots. Qed.
+Print Assumptions C20_publication_store_slots.
+
+(* all multi-id sequences (creates with and without id, every update mask, deletes, acknowledgements), for every
+   hash function and every candidate list of the random source: the listing stays key-sorted and duplicate free
+   and every listed publication carries the hash of its content *)
+Theorem C20_publication_store_sequences : forall hash ops s, store_wf s = true -> pubs_versions_ok hash s ->
+  store_wf (pubs_run_c hash s ops) = true /\ pubs_versions_ok hash (pubs_run_c hash s ops).
+Proof. exact pubs_c_sequences. Qed.
+Print Assumptions C20_publication_store_sequences.
+
+(* the slot of id k after a multi-id history is the one-id history (C20_publication_history applies to it) of the
+   operations addressed to k *)
+Theorem C20_publication_store_per_id : forall hash ops s k, store_wf s = true ->
+  sfind k (pubs_run hash s ops) = pub_run hash (sfind k s) (ops_of k ops).
+Proof. exact pubs_per_id. Qed.
+Print Assumptions C20_publication_store_per_id.
+
+Theorem C20_publication_store_stale_ack : forall hash s id version receipt reason allow gen now old,
+  store_wf s = true -> pubs_versions_ok hash s ->
+  sfind id s = Some old -> id <> "" -> version <> "" -> version <> hash (content_of old) ->
+  fst (pubs_step hash s (mkPO (PAck id version receipt reason allow) gen now)) = PErr 10 /\
+  forall k, sfind k (snd (pubs_step hash s (mkPO (PAck id version receipt reason allow) gen now))) = sfind k s.
+Proof. exact pubs_stale_ack. Qed.
+Print Assumptions C20_publication_store_stale_ack.
+
+(* generated ids (the freshness clause of the C01 collection model): the first of at most ten candidates that is
+   non-empty and unused *)
+Theorem C20_generated_id_fresh : forall cands n (s : pubs) g, first_fresh cands n s = Some g ->
+  g <> "" /\ sfind g s = None /\
+  exists i, (i < n)%nat /\ nth_error cands i = Some g /\
+            forall j c, (j < i)%nat -> nth_error cands j = Some c -> c = "" \/ sfind c s <> None.
+Proof. exact first_fresh_spec. Qed.
+Print Assumptions C20_generated_id_fresh.
+
+Theorem C20_publication_create_generated : forall hash s p cands now, store_wf s = true -> p_id p = "" ->
+  match first_fresh cands 10 s with
+  | None => pubs_step_c hash s (PCreate p) cands now = (PErr 10, s)
+  | Some g =>
+      let n := computed hash now (pub_with_id p g) in
+      g <> "" /\ sfind g s = None /\ In g cands /\
+      fst (pubs_step_c hash s (PCreate p) cands now) = POk n /\ p_id n = g /\ p_version n = hash (content_of n) /\
+      forall k, sfind k (snd (pubs_step_c hash s (PCreate p) cands now)) = if String.eqb g k then Some n else sfind k s
+  end.
+Proof. exact pubs_create_generated. Qed.
+Print Assumptions C20_publication_create_generated.
+
+Theorem C20_publication_store_new : forall cfg, store_wf (pubs_new cfg) = true.
+Proof. exact pubs_new_wf. Qed.
+Print Assumptions C20_publication_store_new.
+
+Example C20_nonvacuous_publication_store :
+  let h := fun c : content => let '(a, b, c0, d) := c in "h" ++ a ++ b ++ c0 ++ d in
+  map fst (pubs_run_c h [] [(PCreate (mkPub "b" "" "x" "" None None), [], 1); (PCreate (mkPub "" "" "y" "" None None), [""; "b"; "a-gen"], 2);
+                            (PUpdate (mkPub "b" "" "z" "" None None) (Some pm_only_body) "", [], 3);
+                            (PDelete "b" "" false, [], 4); (PCreate (mkPub "0" "" "" "" None None), [], 5)]) = ["0"; "a-gen"].
+Proof. vm_compute. reflexivity. Qed.
